@@ -75,6 +75,11 @@ def build_model(c):
     two = 2 if c["ptype"] == "int" else 2.0
     one = 1 if c["ptype"] == "int" else 1.0
     m.add_parameters({"kin": two, "k1": 0.5, "k2": one, "kc": 1.5})
+    if c.get("vals") == "hard":
+        # values as they come out of a fit or a database: many digits, very small, large
+        m.update_parameters({"kin": 20000001 if c["ptype"] == "int" else 2.0000001234567, "k1": 0.12345678901234,
+                             "k2": 3 if c["ptype"] == "int" else 3.0e-7, "kc": 1234.5678901234})
+        m.update_variables({x: 1.0e-3 * (1 + 0.123456789 * i) for i, x in enumerate(xs)})
     # influx with the coefficient under test
     coef = {
         "one": 1, "two": 2, "half": 0.5, "neg": -3, "pname": "kc",
@@ -129,7 +134,11 @@ def generate(tier):
         sh = {**base, "untr": 0, "coef": coef, "nvars": nvars, "untouched": untouched, "derived": derived, "free": free}
         if sh not in shapes:
             shapes.append(sh)
-    return [{k: sh[k] for k in keys} for sh in shapes]
+    out = [{k: sh[k] for k in keys} for sh in shapes]
+    # the same models with hard parameter / initial values
+    for nvars, coef, derived, ptype, ia, free in it.product((1, 2), ("one", "pname", "pcomp"), ("none", "chain"), ("float", "int"), (0, 1), slots["free"]):
+        out.append({**base, "untr": 0, "nvars": nvars, "coef": coef, "derived": derived, "ptype": ptype, "ia": ia, "free": free, "vals": "hard"})
+    return out
 
 
 def prepare(case):
